@@ -310,6 +310,10 @@ void add_type(Node *node) {
   case ND_COND:
     if (node->then->ty->kind == TY_VOID || node->els->ty->kind == TY_VOID) {
       node->ty = ty_void;
+    } else if (node->then->ty->kind == TY_STRUCT || node->then->ty->kind == TY_UNION) {
+      // Both operands have the same structure or union type, which is
+      // also the type of the result; there is nothing to convert.
+      node->ty = node->then->ty;
     } else {
       usual_arith_conv(&node->then, &node->els);
       node->ty = node->then->ty;
